@@ -34,6 +34,7 @@ NewRun(e) == [kind |-> e.kind, ph |-> IF e.kind = "dec" THEN "dec" ELSE "enc",
               pos |-> 0,                  \* bytes fed so far
               vis |-> << >>,              \* longest prefix of the output observed so far
               D |-> 0,                    \* bytes drained so far
+              nd |-> 0,                   \* drain calls so far (a consumer is reading along)
               total |-> 0, stable |-> 0,  \* last observation
               \* I-spec shadow (short inputs only): the transcribed encoder / decoder state machines run on the same pieces
               ist |-> [on |-> Len(e.input) <= 1000, enc |-> EncNew(e.l1), dec |-> DecNew],
@@ -44,7 +45,7 @@ CapViol(v, new) == v \cup {x \in new : Cardinality({y \in v : y.prop = x.prop}) 
 
 Init == l = 1 /\ failed = FALSE /\ viol = {} /\ drift = {} /\ outs = [iid |-> 0, input |-> << >>, out |-> << >>] /\
         st = [kind |-> "none", ph |-> "none", L1 |-> 1, L2 |-> 1, iid |-> 0, pre |-> << >>, preHole |-> 0, input |-> << >>,
-              plain |-> << >>, pos |-> 0, vis |-> << >>, D |-> 0, total |-> 0, stable |-> 0,
+              plain |-> << >>, pos |-> 0, vis |-> << >>, D |-> 0, nd |-> 0, total |-> 0, stable |-> 0,
               ist |-> [on |-> FALSE, enc |-> EncNew(1), dec |-> DecNew], live0 |-> 0, chunks0 |-> 0]
 
 V(prop, what) == {<<prop, what>>}
@@ -107,7 +108,7 @@ DecoderLag(s, e) ==
 Feed(s, e) ==
   LET bad ==
            When(e.panic # "", V(IF s.ph = "enc" THEN "C01" ELSE "C07", "panic while feeding: " \o e.panic)
-                              \cup When(s.D > 0, V("C09", "panic while feeding a codec whose output is being drained: the complete output never arrives")))
+                              \cup When(s.nd > 0, V("C09", "panic while feeding a codec whose output is being drained: the complete output never arrives")))
       \cup When(e.panic = "" /\ s.ph = "enc" /\ e.err # "", V("C01", "encoder feed failed: " \o e.err))
       \cup (IF e.panic = "" THEN ObsCheck(s, e, s.D)
                  \cup When(e.stable < s.stable, V("C09", "consumable bytes shrank without a drain"))
@@ -136,7 +137,7 @@ Drain(s, e) ==
                       e, s.D + k))
       vis1 == IF s.D + k > Len(s.vis) THEN SubSeq(s.vis, 1, s.D) \o e.req ELSE s.vis
       s1 == [s EXCEPT !.vis = vis1]
-  IN [st |-> [s1 EXCEPT !.D = s.D + k, !.vis = IF e.panic = "" THEN VisAfter(s1, e, s.D + k) ELSE @,
+  IN [st |-> [s1 EXCEPT !.D = s.D + k, !.nd = @ + 1, !.vis = IF e.panic = "" THEN VisAfter(s1, e, s.D + k) ELSE @,
                         !.total = e.total, !.stable = e.stable],
       bad |-> bad]
 
@@ -211,7 +212,7 @@ Step(s, e) ==
          [st |-> s, bad |-> IF s.ph = "enc" THEN EncFinishCheck(s, e) ELSE DecFinishCheck(s, e)]
     [] e.ev = "take_iovec" -> [st |-> s, bad |-> TakeCheck(s, e)]
     [] e.ev = "switch" ->
-         [st |-> [s EXCEPT !.ph = "dec", !.input = e.dinput, !.pos = 0, !.vis = << >>, !.D = 0,
+         [st |-> [s EXCEPT !.ph = "dec", !.input = e.dinput, !.pos = 0, !.vis = << >>, !.D = 0, !.nd = 0,
                            !.total = 0, !.stable = 0, !.ist = [on |-> Len(e.dinput) <= 1100, enc |-> EncNew(1), dec |-> DecNew]],
           bad |-> {}]
     [] e.ev = "end" ->
